@@ -155,7 +155,7 @@ def run_config(pid, hname, cfg, tier, seed, opts):
             else:
                 res['inconclusive'].append({'why': 'unknown', 'ob': name})
         # translator validation on the first paths of each configuration
-        if res['validation']['cases'] < hopts.get('validate_paths', 2) and tag == 'ok' and W.got and not opts.get('no_validate'):
+        if res['validation']['cases'] < hopts.get('validate_paths', 2) and tag == 'ok' and W.got and not opts.get('no_validate') and not cfg.get('_novalidate'):
             sm = W.sample()
             if sm is not None:
                 vals, env = sm
@@ -199,6 +199,18 @@ def run_config(pid, hname, cfg, tier, seed, opts):
         signal.alarm(0)
         sys.setprofile(None)
         core.CUR[0] = None
+    # the symbolic run could not be completed (unsupported operation, budget): nothing is claimed, but the harness is still run
+    # concretely on the real code at a few generic points; an obligation failing there is a violation like any other
+    if any(str(i.get('why', '')).startswith(('unsupported', 'timeout', 'budget', 'harness-error')) for i in res['inconclusive']):
+        for k in range(4):
+            CW, exc = run_concrete(hrun, cfg, {}, seed * 1000 + k + 1)
+            if exc == 'assumption':
+                continue
+            bad = [n for n, st, d in CW.obs if st in ('fail', 'fail-concrete-only')]
+            if bad or (exc is not None):
+                res['candidates'].append({'ob': bad[0] if bad else f'exception:{type(exc).__name__}', 'values': dict(CW.used), 'path': 0,
+                                          'note': 'concrete fallback after an inconclusive symbolic run'})
+                break
     # replay candidates on the real code
     confirmed = []
     seen = set()
